@@ -551,7 +551,7 @@ def run(ctx):
         "16 embedding contexts x arguments over {a + , : ( ) blank}) whose argument contains at least one of + , : ( ) "
         "blank, compared key by key with the real parseKeymap; rejected cases, arbitrary atom sequences, random bind "
         "strings judged by TLC and real-binary runs are counted separately in coverage")
-    # thorough enumerates its finite spaces completely (all singles, all ordered pairs of the 277 occurrences in all
+    # thorough enumerates its finite spaces completely (all singles, all ordered pairs of the 299 occurrences in all
     # placements; all bind forms x contexts x arguments <= 3; all atom sequences <= 4); quick samples the cross-family pairs
     ctx.cov["exhaustive"] = (not ctx.quick) and only == ""
     if cases:
@@ -562,7 +562,7 @@ def run(ctx):
         bad = rejected[(ctx.seed * 104729) % len(rejected)]
         ctx.sample({"file": bad["file"], "env": bad["env"], "argv": bad["argv"], "expected": bad["exp"]})
     ctx.assumptions += [
-        "option vocabulary: 45 flag spellings/forms and 20 valued options (277 occurrences = option x form x value); "
+        "option vocabulary: 26 flag spellings and 21 valued options (299 occurrences = option x form x value); "
         "other options are parsed by the same loop but their value grammars are not modelled",
         "values are sequences of atoms of a fixed vocabulary chosen so that no concatenation of two atoms is itself a "
         "key/action/number; arbitrary texts (J) are opaque to the spec and only generated where every text has the same "
